@@ -406,6 +406,10 @@ class StmtMixin(CallMixin):
 
     def loop_source(self, it, st):
         """-> ({kind, ...} | Raise, state)"""
+        if isinstance(it, ast.Call) and ast.unparse(it.func) == "itertools.chain":
+            for v, s in self.iter_source_list(it, st):
+                yield (v if isinstance(v, Raise) else {"kind": "list", "lst": v, "node": None}), s
+            return
         if isinstance(it, ast.Call) and isinstance(it.func, ast.Name) and it.func.id not in st.locals:
             fn = it.func.id
             if fn == "range":
@@ -547,6 +551,10 @@ class StmtMixin(CallMixin):
                 head.heap.havoc_field(rec, field, fty)
         for g in sorted(wg):
             head.ghost[g] = V.fresh(S.GHOST[g], "G_" + g)
+        for rec in sorted(getattr(self, "_last_written_alloc", ()) or ()):
+            head.havoc_alloc(rec)
+            if head.written_alloc is not None:
+                head.written_alloc.add(rec)
         if is_for:
             if unordered:
                 head.locals[vname] = V.fresh(st.locals[vname].ty, "seen")
@@ -687,7 +695,7 @@ class StmtMixin(CallMixin):
         """Run the body once without pruning to find every local / heap field / ghost variable
         the loop can write (the havoc set)."""
         d = st.clone()
-        d.written_locals, d.written_heap, d.written_ghost = set(), {}, set()
+        d.written_locals, d.written_heap, d.written_ghost, d.written_alloc = set(), {}, set(), set()
         wtypes = {}
         self.discovering += 1
         saved = (self.n_paths, dict(self.loop_ids), self.loop_ordinal, dict(self.used_assumed), dict(self.used_inlined))
@@ -732,4 +740,5 @@ class StmtMixin(CallMixin):
             self.n_paths = saved[0]
             self.used_assumed, self.used_inlined = saved[3], saved[4]
             # keep loop ordinals discovered (they are deterministic by ast node identity)
+        self._last_written_alloc = d.written_alloc
         return d.written_locals, d.written_heap, d.written_ghost, wtypes
